@@ -244,7 +244,7 @@ class C17(Prop):
 class C16(Prop):
     pid = 'C16'
     k_fields = ['R']
-    o_fields = ['calendar', 'timeofday']
+    o_fields = ['calendar', 'timeofday', 'fmtref']
     k_is_o = True
     per_case_timeout = 2.0
     rule = ('component extraction on boundary and random date-time numbers (years 1..9999, chrono range limits, NaN/inf), encode_date/encode_time with valid and '
@@ -256,7 +256,7 @@ class C16(Prop):
     assumptions = COMMON_ASSUME + ["chrono's calendar, formatter and parser are trusted beyond the default patterns"]
 
     def gen(self, tier, R):
-        return [(c, 'release') for c in builtins.gen_c16(tier, R)]
+        return [(c, 'release') for c in builtins.gen_c16(tier, R)] + [(c, 'release') for c in builtins.gen_datefmt(tier, R)]
 
 
 class C13(Prop):
@@ -344,7 +344,7 @@ class C09(Prop):
 class C14(Prop):
     pid = 'C14'
     k_fields = ['R']
-    o_fields = ['det', 'foldeq', 'hasheq']
+    o_fields = ['det', 'foldeq', 'hasheq', 'fmtref']
     known_covers_k = True
     rule = ('every pure registered builtin on arrays whose elements are equal across kinds (1, \'1\', \'1.0\', true, 0, \'0\', false, \'\', -0), on the boundary '
             'pool, on random argument lists and on clusters of NEARLY identical arguments (same second / different millisecond, adjacent doubles, texts differing in one character or in case) '
@@ -362,6 +362,7 @@ class C14(Prop):
         from vlib.core import num, s as S_, arr, b as B_
         shapes = [[], [num(10.0)], [arr(num(1.0), num(2.0), num(3.0))], [arr()], [num(1.0), num(2.0), num(3.0)], [arr(num(1.0)), arr(num(2.0))], [S_('a')], [B_(True), num(2.0)],
                   [arr(*[num(float(i)) for i in range(64)])]]
+        out += [(c, 'release') for c in builtins.gen_datefmt(tier, R)]
         for nme in builtins.impure_names():
             for sh in shapes:
                 out.append(('(foldcall _ ' + S_(nme) + ''.join(' ' + a for a in sh) + ')', 'release'))
